@@ -1586,6 +1586,8 @@ where
                             }
                         })?
                     };
+                    // the content of this item may change at any depth below
+                    obj.len = Length::UNDEFINED;
                 }
             }
         }
